@@ -80,6 +80,11 @@ CHECKS = {
         note=TB + "The grammar/precedence specification is the one documented in the property's anchor. `this` is read as an identifier (enumerator THIS_ID is never produced) - documented exception in C16_keyword_table.",
         technique="Lean 4 theorems on the lexer model + translator for the symbol table + differential token-stream correspondence + independent tokenizer",
         design="§6 C16"),
+    "C17": dict(
+        text="The instance registry (type::new_instance's breadth-first registration with every supertype, new_existential, enum_type::get_all_instances) is modelled in Lean (OratioModel/Core/Types.lean); 6 theorems C17_* prove for ANY hierarchy (several supertypes, levels, diamonds) and ANY creation history: an item is in a type's instances - hence in the domain of a variable declared at that point - iff it was created so far with a class that is the type or a transitive subtype; domains only grow with later creations (snapshots lose nothing); an enum's values are exactly its own and transitively included ones. Tie: (a) EXACT correspondence of the registry: per-type instance lists of the real core (order and multiplicity included) and the values of every enum are compared with the native Lean driver on the program's class graph and creation sequence; (b) end-to-end oracle with an independent reference semantics: fields as the constructor chain wrote them, every chosen value inside the reference domain, all constraints (field chains through variables, object/enum (dis)equalities, string constants) true under the chosen values, and `unsolvable` only when exhaustive enumeration of the reference domains finds no choice - in every configuration of the tier.",
+        note=TB + "PARTIAL: constructor execution, var_item::get's derived field variables and the value-picking search are judged by the reference semantics end to end, not modelled in Lean (the clause-level meaning of derived variables rests on C13/C14). The BFS takes a fuel argument; the domain theorem assumes the fuel covers the walk (Covers).",
+        technique="Lean 4 theorems on the registry model + exact registry correspondence (implementation dump vs native Lean driver) + reference-semantics oracle with exhaustive enumeration",
+        design="§6 C17"),
     "C18": dict(
         text="Input part: 3 theorems C18_* prove that for EVERY byte string the lexer model returns tokens ending in EOF or one of six reported errors - the model's own did-not-finish outcome is never produced and every next() consumes input. Tie: the token correspondence of C16 on valid, invalid, truncated and mutated inputs under a 2 s watchdog; API part: the histories of C07 and C10 replayed against builds with assertions on (ASan/UBSan in the thorough tier): any abort, assertion, sanitizer report, uncaught exception or hang is a violation with the history as replay.",
         note=TB + "PARTIAL: memory safety, leaks and hangs inside the planner's search are runtime behaviours observed by sanitizers and watchdog during the runs, not proved; whole programs through read()+solve() are exercised by the end-to-end checks.",
